@@ -145,10 +145,9 @@ pub fn exec(case: &[i64]) -> Outcome {
           Err(_) => { obs.push(0); cls = "deser-err"; }
           Ok(x) => {
             cls = "deser-ok";
-            let single = !json.is_array();
-            obs.push(if single { 1 } else { 2 });
-            put_pairs(&mut obs, x.as_slice());
             let ser = serde_json::to_value(&x).unwrap();
+            obs.push(if ser.is_array() { 2 } else { 1 });       // the representation the value has (One / Set), read off its own serialisation
+            put_pairs(&mut obs, x.as_slice());
             obs.push(shape_of(&ser));
             let back = serde_json::from_value::<OneOrSet<Kv>>(ser.clone());
             let same = matches!(&back, Ok(b) if *b == x);
@@ -156,7 +155,10 @@ pub fn exec(case: &[i64]) -> Outcome {
             if !same { why = Some("OneOrSet does not deserialise from its own JSON to an equal value"); }
             if x.len() == 0 { why = Some("empty OneOrSet"); }
             if !uniq(x.as_slice()) { why = Some("OneOrSet with duplicate keys"); }
-            if ser != json { why = Some("OneOrSet reserialises differently"); }
+            // a one-element array is held as One (like every constructor does) and written back as the bare item; every other text comes back verbatim
+            let single_array = json.as_array().map_or(false, |a| a.len() == 1);
+            if ser != json && !(single_array && Some(&ser) == json.get(0)) { why = Some("OneOrSet reserialises differently"); }
+            if single_array && serde_json::from_value::<OneOrSet<Kv>>(json[0].clone()).ok().as_ref() != Some(&x) { why = Some("a one-element array and the bare item deserialise to unequal OneOrSet values"); }
           }
         }
       } else {
